@@ -94,6 +94,12 @@ Definition last_password (l : list api_op) (u : user) : string := last_password_
 (* ---------------------------------------------------------------------------------------------------------------- *)
 (* 2. the authentication oracle *)
 
+(* ISSUING.  A header the hub makes for an outgoing request (calls to slaves, webhooks, reverse) carries as issue time the
+   clock at the moment it is made - whole seconds - or none when the hub has no real date: issue_time = now.  (So it
+   verifies at once, and for as long as the receiver's clock stays within the skew of that moment.) *)
+Definition spec_issue_time (now8 : Z) : option Z :=
+  if 8 * 1546304400 <? now8 then Some (now8 / 8) else None.
+
 Inductive expect :=
 | MustGrant (u : option user)   (* Some u: at u's level; None (device-origin check): accepted *)
 | MustRefuse
